@@ -157,6 +157,7 @@ def run(ctx):
 
     c035(ctx)
     c036(ctx)
+    c037(ctx)
     # ---------------------------------------------------------------- C03.1
     serde_table.check(ctx)
 
@@ -250,3 +251,34 @@ def c036(ctx):
         ctx.ob('C03.6', f, 'strict-decode:' + s_.name, not lab,
                'the input of %s::<Event> %s' % (s_.name, 'does not derive from a lossy decoder' if not lab else
                                                 'DERIVES FROM A LOSSY DECODER: a multi-byte character split by a read boundary (or an invalid byte) comes back as U+FFFD — the replayed frame differs from the one written'), line=s_.line)
+
+
+def c037(ctx):
+    """the recorded-frames buffers (session, task) are what the per-session snapshot and the
+    catch-up replay are written from: they only grow."""
+    P = ctx.prog
+    ctx.rule('C03.7', 'recorded history only grows: no shrinking operation (drain / truncate / clear / remove / pop / retain / split_off / swap_remove / dedup) is applied to a Vec<Event> reached through a mutex guard (the session and task history buffers the snapshot and the catch-up replay are written from); a trimmed buffer yields a snapshot without its head while the log and the live stream carried every frame.')
+    SHRINK = r'alloc::vec::Vec::<T, A>::(drain|truncate|clear|remove|pop|retain|retain_mut|split_off|swap_remove|dedup\w*)$'
+    GROW = r'alloc::vec::Vec::<T, A>::(push|extend|extend_from_slice|append)$'
+    DER = (r'::deref_mut$', r'::deref$', r'::as_mut$')
+    grows, shrinks = [], []
+    for p, f in sorted(P.fns.items()):
+        if f.crate not in ('ripd', 'rip_log', 'rip_kernel'):
+            continue
+        for s_ in f.sites():
+            if 'rip_kernel::Event' not in (s_.full or '') or not s_.args:
+                continue
+            kind = 'shrink' if re.search(SHRINK, s_.callee) else ('grow' if re.search(GROW, s_.callee) else None)
+            if kind is None:
+                continue
+            r = f.root_local(s_.args[0], through_calls=DER)
+            if r is None or not re.search(r'MutexGuard<.*alloc::vec::Vec<rip_kernel::Event>>', f.lty(r)):
+                continue
+            (shrinks if kind == 'shrink' else grows).append((f, s_))
+    ctx.floor('C03.7', 'pushes into a guarded history buffer (the buffers the rule protects)', len(grows), 2)
+    for f, s_ in grows:
+        ctx.touch(f)
+    ctx.ob('C03.7', 'workspace', 'history-append-only', not shrinks,
+           '%d push site(s) into guarded Vec<Event> buffers; %s' % (len(grows), 'no shrinking operation on any of them' if not shrinks else
+                                                                    '%s applies %s to the history buffer: the snapshot written from it loses frames the log and the subscribers have' % (shrinks[0][0].path, shrinks[0][1].name)),
+           line=shrinks[0][1].line if shrinks else 0)
